@@ -298,3 +298,17 @@ Theorem alignment_site_characters : forall pos a h i d, NoDup (map Z.to_nat pos)
   (i < length pos)%nat ->
   nth (Z.to_nat (nth i pos 0)) (fill_sites a pos h) d = nth i h d.
 Proof. exact alignment_at_sites. Qed.
+
+(* round 6: tree names chain through the breakpoint tokens; the default precision *)
+Theorem nexus_names_chain_through_breakpoints : forall (toks : list str) (d : str),
+  length (intervals_of toks) = pred (length toks) /\
+  (forall k, (S k < length toks)%nat ->
+     nth k (intervals_of toks) (d, d) = (nth k toks d, nth (S k) toks d)).
+Proof. exact intervals_chain. Qed.
+
+Theorem default_precision_is_discrete_time : forall q nodes muts migs,
+  (resolve_precision None q nodes muts migs = 0 <->
+   forall x, In x (nodes ++ muts ++ migs) -> x mod 10 ^ q = 0) /\
+  (resolve_precision None q nodes muts migs = 0 \/ resolve_precision None q nodes muts migs = 17) /\
+  (forall p, resolve_precision (Some p) q nodes muts migs = p).
+Proof. exact default_precision_rule. Qed.
